@@ -58,6 +58,32 @@ CHECKS = {
         note='Trusted: owner existence read from the decoded instance graph.',
         technique='explicit enumeration of all inputs in bounds, cross-path agreement oracle',
         ref='4 (C07)'),
+    'C10': dict(
+        text='E1 over ALL encoder factories of the registry (9 eager, 11 lazy, 4 enumerating, 6 pattern) x imputers (all on 1x1/1x2/2x1, '
+             'default on 2x2) x connector settings with existence patterns x EVERY vector of each declared space plus out-of-range and '
+             'too-long vectors: valid matrix (brute-force reference), corrected vector in range, idempotent (twice), onto, equal '
+             'corrected vectors = equal matrices, listed design vectors = corrected vectors, >= 2 used values per variable, only '
+             'InvalidPatternEncoder at construction; plus the activeness contract of C07 at manager level.',
+        note='Trusted: brute-force reference. Constraint-violation imputers are held to "valid or flagged, never flagged on a listed vector".',
+        technique='explicit enumeration of encoder x imputer x setting x full vector space, brute-force oracle',
+        ref='4 (C10)'),
+    'C11': dict(
+        text='E2 + E1 on the CON-2 family: every existence scenario is reached through the real selection API (all leaves of the '
+             'derivation state graph); per scenario and connection choice the offered sets equal the brute-force sets for the connectors '
+             'present (each once), validate_conn_edges agrees on every edge multiset of the cube, applying each set yields exactly those '
+             'edges; processor level (both encoders): infeasible scenarios never decoded to, feasible ones never lost, enumeration = reference.',
+        note='Trusted: brute-force per-scenario reference incl. grouping-node sums and the re-implemented parallel-connection limit.',
+        technique='explicit-state exploration of scenarios + exhaustive enumeration of connection sets and decode tables',
+        ref='4 (C11)'),
+    'C13': dict(
+        text='CC-1 family (4 constraint types x 2-3 choices x 2-4 options x 6 placements incl. shared option nodes, hierarchical and '
+             'mutually exclusive): complete derivation state graph, both decode tables and the enumeration are compared with the '
+             'documented index predicates; the pure index functions are checked on all small inputs; linked design-variable nodes at '
+             'graph and processor level.',
+        note='Trusted: the documented predicates (theory.md) re-implemented in vf/refmodel.index_predicate.',
+        technique='explicit enumeration of constraint configurations and index rows, explicit-state BFS per spec',
+        ref='4 (C13)'),
+
     'C14': dict(
         text='E1 with the fast encoder on every spec of the scope (incl. zero-choice graphs, forced choices, incompatibilities, linked '
              'choices, connection choices): sound, onto (equal to the reference set and to the complete encoder), valid vectors '
@@ -77,7 +103,7 @@ CHECKS = {
         ref='4 (C09)'),
 }
 
-READY = {'C01', 'C02', 'C03', 'C04', 'C06', 'C07', 'C09', 'C14'}
+READY = {'C01', 'C02', 'C03', 'C04', 'C06', 'C07', 'C09', 'C10', 'C11', 'C13', 'C14'}
 
 NOT_YET = {
 }
